@@ -65,7 +65,7 @@ Classify(s, rl) ==
   [rl EXCEPT !.acc = ord({o \in rl.chainOuts : m(o) /\ rl.wouts[s.reg[o].key].st = "Spent"}),
              !.lck = ord({o \in rl.chainOuts : m(o) /\ rl.wouts[s.reg[o].key].st = "Locked"}),
              !.mis = ord({o \in rl.chainOuts : ~m(o)}),
-             !.unc = AnySeq({k \in DOMAIN rl.wouts : rl.wouts[k].st = "Unconfirmed"}),
+             !.unc = AnySeq({k \in DOMAIN rl.wouts : rl.wouts[k].st = "Unconfirmed" /\ ~\E o \in rl.chainOuts : m(o) /\ s.reg[o].key = k}),
              !.qi = 1]
 \* which repair section comes next
 NextRepair(rl, after) ==
